@@ -36,6 +36,7 @@ type pvMsg struct {
 	Kind string // v1 v3 badmethod badstate malformed
 	// v1
 	Good bool
+	Low  bool // v1 with a 32-byte key that is a point of small order
 	E    int
 	// v3
 	Short     int
@@ -63,6 +64,9 @@ func (m pvMsg) tok() string {
 	case "v1":
 		if m.Good {
 			return fmt.Sprintf("v1 good %d", m.E)
+		}
+		if m.Low {
+			return "v1 loworder"
 		}
 		return fmt.Sprintf("v1 wronglen %d", m.N)
 	case "v3":
@@ -145,9 +149,6 @@ func (e *pvEnv) eph(n int) []byte {
 // ephPub: the public key of ephemeral key n; n = 7 is a point of small order (nobody holds a private key for it, the shared
 // secret with any key is all zero) with the correct length.
 func (e *pvEnv) ephPub(n int) []byte {
-	if n == 7 {
-		return []byte{0xe0, 0xeb, 0x7a, 0x7c, 0x3b, 0x41, 0xb8, 0xae, 0x16, 0x56, 0xe3, 0xfa, 0xf1, 0x9f, 0xc4, 0x6a, 0xda, 0x09, 0x8d, 0xeb, 0x9c, 0x32, 0xb1, 0xfd, 0x86, 0x62, 0x05, 0x16, 0x5f, 0x49, 0xb8, 0x00}
-	}
 	return refX25519Pub(e.eph(n))
 }
 
@@ -181,6 +182,23 @@ func (e *pvEnv) concretise(conn int, m pvMsg) []byte {
 	case "v1":
 		if m.Good {
 			return tlvMsg(tlvOp{tState, b1(1)}, tlvOp{tPubKey, e.ephPub(m.E)})
+		}
+		if m.Low {
+			// the points of small order on Curve25519 (u = 0, 1, two of order 8, p-1, p, p+1), some with the unused top bit set
+			pts := []string{
+				"0000000000000000000000000000000000000000000000000000000000000000",
+				"0100000000000000000000000000000000000000000000000000000000000000",
+				"e0eb7a7c3b41b8ae1656e3faf19fc46ada098deb9c32b1fd866205165f49b800",
+				"5f9c95bca3508c24b1d0b1559c83ef5b04445cc4581c8e86d8224eddd09f1157",
+				"ecffffffffffffffffffffffffffffffffffffffffffffffffffffffffffff7f",
+				"edffffffffffffffffffffffffffffffffffffffffffffffffffffffffffff7f",
+				"eeffffffffffffffffffffffffffffffffffffffffffffffffffffffffffff7f",
+				"0000000000000000000000000000000000000000000000000000000000000080",
+				"0100000000000000000000000000000000000000000000000000000000000080",
+				"edffffffffffffffffffffffffffffffffffffffffffffffffffffffffffffff",
+			}
+			pt, _ := hex.DecodeString(pts[m.N%len(pts)])
+			return tlvMsg(tlvOp{tState, b1(1)}, tlvOp{tPubKey, pt})
 		}
 		l := []int{0, 1, 31, 33, 64}[m.N%5]
 		if l == 0 {
@@ -419,6 +437,9 @@ func genPvMsg(r *rand.Rand, conn, nconn int, e *int, started bool) pvMsg {
 		}
 		return pvMsg{Kind: "v1", Good: true, E: *e}
 	case 3:
+		if r.Intn(2) == 0 {
+			return pvMsg{Kind: "v1", Good: false, Low: true, N: r.Intn(10)}
+		}
 		return pvMsg{Kind: "v1", Good: false, N: r.Intn(5)}
 	case 4, 5, 6:
 		if name == 0 && r.Intn(2) == 0 {
@@ -520,8 +541,8 @@ func pvCorpus() [][]pvStep {
 		{{0, pvMsg{Kind: "v1", Good: false, N: 2}}, {0, g(func(m *pvMsg) { m.KKind = "zero"; m.CE = -1; m.SigKind = "garbage" })}},
 		{{0, pvMsg{Kind: "v1", Good: false, N: 0}}, {0, g(func(m *pvMsg) { m.KKind = "zero"; m.CE = -1 })}},
 		// an exchange that failed, then a start whose key is a point of small order, then the finish made for the FIRST exchange
-		{{0, start}, {0, g(func(m *pvMsg) { m.SigKind = "garbage" })}, {0, pvMsg{Kind: "v1", Good: true, E: 7}}, {0, genuineV3(0, 1, 0, 10)}},
-		{{0, start}, {0, pvMsg{Kind: "v3", Short: 7, Entry: "none"}}, {0, pvMsg{Kind: "v1", Good: true, E: 7}}, {0, genuineV3(0, 1, 2, 12)}},
+		{{0, start}, {0, g(func(m *pvMsg) { m.SigKind = "garbage" })}, {0, pvMsg{Kind: "v1", Low: true, N: 2}}, {0, genuineV3(0, 1, 0, 10)}},
+		{{0, start}, {0, pvMsg{Kind: "v3", Short: 7, Entry: "none"}}, {0, pvMsg{Kind: "v1", Low: true, N: 2}}, {0, genuineV3(0, 1, 2, 12)}},
 		// ctrl-2 is paired (key 12) and verifies; then a finish that claims the NAME "<storage key of ctrl-2>" (or a path to
 		// it), signed with that same key: no pairing is stored under that name
 		{{0, start}, {0, genuineV3(0, 1, 2, 12)}, {1, pvMsg{Kind: "v1", Good: true, E: 2}}, {1, func() pvMsg { m := genuineV3(1, 2, 9, 12); m.Entry = "none"; return m }()}},
@@ -537,6 +558,9 @@ func pvCorpus() [][]pvStep {
 		// a stored long-term key that is not 32 bytes long: a genuine-looking finish and one with a garbage signature
 		{{0, start}, {0, g(func(m *pvMsg) { m.Entry = "badkey" })}},
 		{{0, start}, {0, g(func(m *pvMsg) { m.Entry, m.SigKind, m.N = "badkey", "garbage", 3 })}, {0, start}, {0, genuineV3(0, 1, 0, 10)}},
+		// F61: a start with a key of small order opens no exchange; the finish sealed under the key of the all-zero secret
+		{{0, pvMsg{Kind: "v1", Low: true, N: 0}}, {0, g(func(m *pvMsg) { m.KKind = "zero"; m.CE = -1 })}},
+		{{0, pvMsg{Kind: "v1", Low: true, N: 5}}, {0, start}, {0, genuineV3(0, 1, 0, 10)}},
 		// F16: the accessory itself is no controller (a finish naming it, signed with its own long-term key)
 		{{0, start}, {0, g(func(m *pvMsg) { m.Name, m.SigName, m.Entry, m.EntryPk, m.Signer = 0, 0, "own", 99, 98 })}},
 		// F42: a second exchange with the SAME controller key on the connection; the recorded finish of the first one is
@@ -660,6 +684,10 @@ func checkC03(c *Ctx) {
 				after = "plain"
 			}
 			// ---- direct oracles
+			if m.Kind == "v1" && m.Low && strings.HasPrefix(obs, "tlv 2") {
+				c.Violate("pair-verify opens an exchange for a controller key of small order (the shared secret is all zero whatever the accessory's key pair is: every session negotiated this way has the same keys, a recorded frame of one is a frame of the next)", cs.id,
+					append(append([]string{}, hist...)), "the start request is refused", obs)
+			}
 			e := lastStart[s.Conn]
 			genuine := e >= 0 && m.Kind == "v3" && m.tok() == genuineV3(s.Conn, e, m.Name, m.EntryPk).tok()
 			success := strings.HasPrefix(obs, "tlv 4 - ")
